@@ -371,7 +371,8 @@ Proof.
   replace (c_a_base C + ((c_a_max C - c_a_base C) * 0 * (c_dt C / c_a_tau C)
                          + (c_a_base C - c_a_base C) * (c_dt C / c_a_tau C)))
     with (c_a_base C) by ring.
-  apply c01_qmax_r. apply c01_abase_ge1.
+  rewrite (c01_qmax_r _ _ c01_abase_ge1).
+  apply qmin_le_r. exact (proj1 (proj2 (vc_alpha _ _ HC))).
 Qed.
 
 (* step 5 : capacity and optimal production *)
